@@ -38,6 +38,10 @@ func verifNewEnv13() *verifEnv13 {
 			idx := map[string]any{}
 			var fl []map[string]string
 			for _, k := range e.keys {
+				if k == "!null" {
+					fl = append(fl, nil)
+					continue
+				}
 				u := e.srv.URL + "/lists/" + url.PathEscape(k) + ".txt"
 				if rest, ok := strings.CutPrefix(k, "!empty:"); ok {
 					fl = append(fl, map[string]string{"filterKey": rest, "downloadUrl": ""})
